@@ -2108,3 +2108,36 @@ def binop(ex, opn, l, r):   # noqa: F811
     if isinstance(l, I.Opaque) and l.what == 'datetime' or isinstance(r, I.Opaque) and r.what == 'datetime':
         return I.Opaque('datetime')
     return _bin3(ex, opn, l, r)
+
+
+@ext('torch.linalg.solve')
+def _linalg_solve(ex, a, k):
+    """torch.linalg.solve(B, rhs) (assumed contract): B is n x n, rhs is n x k or n; the result has the shape of rhs.
+    torch raises for a singular B -- a value-dependent condition that is assumed not to occur (stated in the evidence)."""
+    B, rhs = a[0], a[1]
+    if not (isinstance(B, STensor) and isinstance(rhs, STensor)) or B.ndim != 2 or rhs.ndim not in (1, 2):
+        raise PyRaise('RuntimeError', 'linalg.solve: expected a square matrix and a vector / matrix', origin='torch')
+    if not T.known_eq(B.shape[0], B.shape[1]):
+        require(to_int(B.shape[0]) == to_int(B.shape[1]), 'RuntimeError', 'linalg.solve: A must be batches of square matrices')
+    if not T.known_eq(B.shape[1], rhs.shape[0]):
+        require(to_int(B.shape[1]) == to_int(rhs.shape[0]), 'RuntimeError', 'linalg.solve: incompatible shapes')
+    if B.dtype != rhs.dtype:
+        raise PyRaise('RuntimeError', 'linalg.solve: expected both operands to have the same dtype', origin='torch')
+    out = T.opaque_with_axes(list(rhs.axes), rhs.dtype, 'solve')
+    out._val = None
+    ex.notes.append(('assumed', 'torch.linalg.solve: the local matrix is assumed to be nonsingular'))
+    return T.derive(out, B, rhs)
+
+
+@ext('torch.linalg.inv')
+def _linalg_inv(ex, a, k):
+    """torch.linalg.inv (assumed contract): the last two dims must be square; result has the same shape; singular -> raises (assumed away)"""
+    A = a[0]
+    if not isinstance(A, STensor) or A.ndim < 2:
+        raise PyRaise('RuntimeError', 'linalg.inv: expected a (batch of) square matrices', origin='torch')
+    if not T.known_eq(A.shape[-1], A.shape[-2]):
+        require(to_int(A.shape[-1]) == to_int(A.shape[-2]), 'RuntimeError', 'linalg.inv: A must be batches of square matrices')
+    out = T.opaque_with_axes(list(A.axes), A.dtype, 'inv')
+    out._val = None
+    ex.notes.append(('assumed', 'torch.linalg.inv: the matrix is assumed to be nonsingular'))
+    return T.derive(out, A)
